@@ -5343,6 +5343,10 @@ func (t *Terminal) Loop() error {
 				if t.hasPreviewWindow() {
 					t.activePreviewOpts.Toggle()
 					updatePreviewWindow(false)
+					// Like hide-preview: discard the content and kill the
+					// preview process if it's still running
+					t.previewer.lines = nil
+					t.cancelPreview()
 				} else {
 					req(reqQuit)
 				}
@@ -6075,6 +6079,11 @@ func (t *Terminal) Loop() error {
 				if t.previewOpts.command != a.a {
 					t.previewOpts.command = a.a
 					updatePreviewWindow(false)
+					if !t.canPreview() {
+						// The window is gone with the command
+						t.previewer.lines = nil
+						t.cancelPreview()
+					}
 					refreshPreview(t.previewOpts.command)
 				}
 			case actChangePreviewWindow:
